@@ -519,16 +519,41 @@ func HarnessC03Extract() {
 // c03XClass names the witness class of a recorded defect the shape and data
 // fall into, or "".
 func c03XClass(sh xshape, data []*dspec) string {
+	// a later clause re-uses, as an ID/TYPE/AT extraction alias, a name an earlier
+	// clause has bound: the planner cannot specialise the clause by such a value
+	// and merges the rows without comparing it
+	bound := map[string]bool{}
+	for i, c := range sh.cs {
+		if i > 0 {
+			for _, a := range []string{c.sID, c.sType, c.pID, c.pAt, c.oID, c.oType, c.oAt} {
+				if a != "" && bound[a] {
+					return "binding-joined-only-through-an-extraction-alias"
+				}
+			}
+		}
+		for _, b := range xbindingsOf([]xclause{c}) {
+			bound[b] = true
+		}
+	}
+	bound = map[string]bool{}
 	for _, c := range sh.cs {
+		// one alias extracted from the subject and from a node object of the same clause
+		if c.sID != "" && c.sID == c.oID {
+			return "id-alias-of-subject-repeated-on-a-node-object"
+		}
 		// the driver's missing kind comparison (C02): a constant pattern predicate
-		// against a stored predicate with the same identifier but the other kind
-		if c.p.bind == "" && c.at == "" {
+		// (also one completed with an anchor bound by an earlier clause) against a
+		// stored predicate with the same identifier but the other kind
+		if c.p.bind == "" && (c.at == "" || bound[c.at]) {
 			for _, d := range data {
-				patTemporal := c.pk == 1 || c.bound
+				patTemporal := c.pk == 1 || c.bound || c.at != ""
 				if patTemporal != (d.pk == 1) && d.pb == c.p.cb {
 					return "pattern-predicate-and-stored-predicate-differ-in-kind-only"
 				}
 			}
+		}
+		for _, b := range xbindingsOf([]xclause{c}) {
+			bound[b] = true
 		}
 	}
 	return ""
